@@ -59,7 +59,8 @@ CODEC = {'test': 'TestVerifCodec', 'comp': 'codec', 'quick': {'VERIF_N': 1500}, 
 PROPS = {
     'C05': {'jobs': [RQ]},
     'C16': {'jobs': [GENF, RQ, ASND, ARACK]},
-    'C01': {'jobs': [REASM, E2E_T], 'assumptions': [
+    'C01': {'jobs': [REASM, ASND, E2E_T], 'assumptions': [
+        'sender half (Props/C01wire.lean): payload BYTES are not in the sender model (lengths and fragment identity only); that a chunk carries the matching slice of the written buffer is observed by the e2e content hashes',
         'component theorem: the association hands each TSN to the stream at most once (C05) and chunks are the sender\'s fragments',
         'fewer than 2^15 ordered messages of a stream outstanding (SSN half-space; known finding D15); fewer than 2^31 TSNs/MIDs outstanding']},
     'C11': {'jobs': [REASM], 'assumptions': [
